@@ -14,6 +14,7 @@
 package main
 
 import (
+	"bytes"
 	"fmt"
 	"strings"
 
@@ -74,6 +75,32 @@ func run(c *vkit.Collector, rng *vkit.Rng, budget int) {
 		doPair(c, rng, la, lb, class, k%4 == 0)
 		doSeeks(c, la, lb, class)
 		doSeeks(c, lb, la, class)
+	}
+	// decoded objects: loops and polygons that went through Encode/Decode (lossless, and compressed for
+	// cell-centre-snapped vertices; < 64 and >= 64 vertices, where the bound travels in the encoding)
+	for k := 0; k < 24*budget; k++ {
+		maxN := []int{12, 30, 60, 150}[k%4]
+		a, b, class := pairGen(rng, maxN)
+		if k%3 != 2 {
+			a, b = snapPts(a), snapPts(b)
+			if !validLoop(a) || !validLoop(b) {
+				continue
+			}
+		}
+		la, fa := decodedLoop(a)
+		lb, fb := s2.LoopFromPoints(b), "fresh"
+		if k%2 == 0 {
+			lb, fb = decodedLoop(b)
+		}
+		if la == nil || lb == nil {
+			continue
+		}
+		class = fmt.Sprintf("decoded(%s,%s) %s", fa, fb, class)
+		c.Class(fmt.Sprintf("decoded pair: A %s, B %s", fa, fb))
+		if len(a) >= 64 {
+			c.Class("decoded pair: A has >= 64 vertices")
+		}
+		doPair(c, rng, la, lb, class, maxN <= 30)
 	}
 	// bounds: B is A without one (nearly collinear) vertex, so the regions almost coincide and the
 	// cached rectangles differ by rounding only; Contains must not depend on which is larger
@@ -148,6 +175,12 @@ func doPair(c *vkit.Collector, rng *vkit.Rng, la, lb *s2.Loop, class string, coq
 		}
 	}
 	samples := sampleFrom(rng, A, B)
+	// the cached rectangles of every object under test: subregionBound must contain bound
+	for _, x := range append(append([]variant{}, va...), vb...) {
+		if bd, sub := s2.VerifC07LoopBounds(x.v.loop); !sub.Contains(bd) {
+			report(c, "Loop.subregionBound", fmt.Sprintf("subregionBound %v does not contain bound %v [%s, X=%s]", sub, bd, class, x.name), replay)
+		}
+	}
 	viol := func(kind, desc, xn, yn string) {
 		r := map[string]interface{}{"X": xn, "Y": yn}
 		for k, v := range replay {
@@ -195,6 +228,11 @@ func doPair(c *vkit.Collector, rng *vkit.Rng, la, lb *s2.Loop, class string, coq
 		// --- the specification (brute force over all edge pairs / shared vertices) against the index walk
 		if sc := specContains(x, y); sc != cont {
 			viol("Loop.Contains.spec", fmt.Sprintf("Contains=%v, brute-force specification=%v", cont, sc), xn, yn)
+		}
+		// H_SUBREGION_sound attacked directly: the decision without the rectangle prefilter says
+		// "contains" => the prefilter must let it through
+		if specContainsCore(x, y) && !loopBounds(x, y).sub {
+			viol("Loop.subregionBound.sound", "X contains Y by the boundary test but X.subregionBound does not contain Y.bound", xn, yn)
 		}
 		if si := specIntersects(x, y); si != isect {
 			viol("Loop.Intersects.spec", fmt.Sprintf("Intersects=%v, brute-force specification=%v", isect, si), xn, yn)
@@ -305,6 +343,11 @@ func doBoundPair(c *vkit.Collector, a, b []s2.Point) {
 		if sc := specContains(x, y); sc != cont {
 			report(c, "Loop.Contains.spec", fmt.Sprintf("Contains=%v, brute-force specification=%v [boundpair]", cont, sc), replay)
 		}
+		// H_SUBREGION_sound attacked directly: the decision without the rectangle prefilter says
+		// "contains" => the prefilter must let it through
+		if specContainsCore(x, y) && !loopBounds(x, y).sub {
+			report(c, "Loop.subregionBound.sound", "X contains Y by the boundary test but X.subregionBound does not contain Y.bound [boundpair]", replay)
+		}
 		if si := specIntersects(x, y); si != isect {
 			report(c, "Loop.Intersects.spec", fmt.Sprintf("Intersects=%v, brute-force specification=%v [boundpair]", isect, si), replay)
 		}
@@ -374,4 +417,40 @@ func doSeeks(c *vkit.Collector, a, b *s2.Loop, class string) {
 				vkit.App("seek_check", "["+strings.Join(zs, "; ")+"]", vkit.U(uint64(tmin)), vkit.U(uint64(tid)), vkit.U(uint64(tmax)), vkit.B(beyond), fmt.Sprintf("%d%%nat", got)))
 		}
 	}
+}
+
+// snapPts moves every vertex to the centre of its leaf cell (what snapping produces; such loops are
+// written in the compressed format).
+func snapPts(v []s2.Point) []s2.Point {
+	out := make([]s2.Point, len(v))
+	for i, p := range v {
+		out[i] = s2.CellFromPoint(p).ID().Point()
+	}
+	return out
+}
+
+// roundTrip returns Decode(Encode(p)) and the format used ("compressed" / "lossless").
+func roundTrip(p *s2.Polygon) (*s2.Polygon, string) {
+	var buf bytes.Buffer
+	if err := p.Encode(&buf); err != nil || buf.Len() == 0 {
+		return nil, ""
+	}
+	format := "lossless"
+	if buf.Bytes()[0] == 4 {
+		format = "compressed"
+	}
+	q := &s2.Polygon{}
+	if err := q.Decode(&buf); err != nil {
+		return nil, ""
+	}
+	return q, format
+}
+
+// decodedLoop: the loop of the single-loop polygon after an Encode/Decode round trip.
+func decodedLoop(v []s2.Point) (*s2.Loop, string) {
+	q, format := roundTrip(s2.PolygonFromLoops([]*s2.Loop{s2.LoopFromPoints(append([]s2.Point{}, v...))}))
+	if q == nil || q.NumLoops() != 1 {
+		return nil, ""
+	}
+	return q.Loop(0), format
 }
